@@ -136,6 +136,25 @@ def step (d : DState) (opLine : String) (impl : String) : DState × StepOut :=
         let st' := PdModel.TsoGlobal.step d.proto (if a = 0 then .globalAdvance t else .localAdvance a t)
         ({ d with proto := st' }, { model := s!"ok | {viewStr st'}" })
       else (d, { model := s!"rejected | {viewStr d.proto}" })
+    | ["cluster", _] =>
+      -- three servers with the real clock and allocator moves: judged by the monitor only
+      let parts := impl.splitOn " | "
+      let gs := ((words (parts.headD "")).drop 1).filterMap parseGrant
+      let t := parseTable ("[" ++ (parts.getD 1 "") ++ "]")
+      let evs := gs.map (·.1)
+      let gevs := (gs.filter (fun (p : C05.Ev × Nat) => p.1.alloc = 0)).map (fun (p : C05.Ev × Nat) =>
+        let raw := p.1.logical / 2 ^ p.2
+        (⟨p.1.start, p.1.finish, p.1.ms, raw - 1, raw⟩ : C01.Ev))
+      let fails :=
+        (if (parts.headD "").startsWith "grants" then [] else [s!"sig=C05.cluster-run-failed {(parts.headD "")}"]) ++
+        (if gs.all (fun (p : C05.Ev × Nat) => decide (p.1.logical < 2 ^ 18)) then [] else
+          [s!"sig=C01.global-or-local-logical-out-of-range-cluster"]) ++
+        (if C01.check 18 gevs then [] else [s!"sig=C01.global-timestamps-not-unique-increasing-cluster n={gevs.length}"]) ++
+        (if C05.check evs then [] else [s!"sig=C05.order-or-uniqueness-cluster n={evs.length}"]) ++
+        (if gs.all (fun (p : C05.Ev × Nat) => decide (C05.carriesSuffix p.2 t p.1)) then [] else
+          [s!"sig=C05.wrong-suffix-cluster"]) ++
+        tableFails PdModel.Generated.TsoGlobal.maxSuffixBits [] t
+      (d, { model := impl, fails := fails })
     | ["bigreq", _, cnt] =>
       -- large sequential requests: judged by the monitor only (like a burst)
       let parts := impl.splitOn " | "
